@@ -11,15 +11,15 @@ case <text…>                                  → ok          (forgets every f
 frame <id> <index|-> <total|-> <hash|-> <datahex|-> <next ids, comma separated|-|[]>   → ok
 del <id>                                      → ok          (the store no longer holds the frame)
 expect …                                      → ok          (oracle bookkeeping of the harness, not modelled)
-load <id>                                     → ok <len> <xxhash64> | err:get | err:count | err:hash | hang
-loadnd <id> <answer of the real code>         → member | notmember:<set>   (duplicate / missing indices: the
+load <id> <seq>                               → ok <len> <xxhash64> | err:get | err:count | err:hash | hang
+loadnd <id> <seq> <answer of the real code>   → member | notmember:<set>   (duplicate / missing indices: the
                                                  unstable sort may give any element of `Frames.outcomes`)
 verify <hash> <datahex>                       → ok | err    (`ipldbindcode.VerifyHash`)
 sums <datahex>                                → <crc64 iso> <fnv1a64>
 known <len> <xxh of compressed> <xxh of content>  → ok      (zstd oracle table: these compressed bytes decode)
 push <id> | pushtx <id> | pushother           → ok          (accum: append an object to the block's object list)
-run                                           → ok a;b;… | err:<class>     (`ObjectsToTransactionsAndMetadata`)
-txmeta <data id> <meta id>                    → ok <len> <xxh> | <len> <xxh>  | err:data:<c> | err:meta:<c> | err:zstd
+run <n>                                       → ok a;b;… | err:<class>     (`ObjectsToTransactionsAndMetadata`)
+txmeta <data id> <meta id> <seq>              → ok <len> <xxh> | <len> <xxh>  | err:data:<c> | err:meta:<c> | err:zstd
 ```
 -/
 namespace DrvC14
@@ -107,12 +107,12 @@ def step (st : St) (l : String) : St × String :=
     | some (c, f) => ({ st with frames := (c, f) :: st.frames }, "ok")
     | none => (st, "bad-op")
   | ["del", id] => ({ st with frames := st.frames.filter (·.1 != id.toNat!) }, "ok")
-  | ["load", id] =>
+  | "load" :: id :: _ =>
     match lookup st.frames id.toNat! with
     | none => (st, "nofirst")
     | some first => (st, showRes (load Real.hashes S.sort (lookup st.frames) (fuelOf st) first))
-  | ["loadnd", id, a, b, c] => nd st id (a ++ " " ++ b ++ " " ++ c)
-  | ["loadnd", id, a] => nd st id a
+  | ["loadnd", id, _, a, b, c] => nd st id (a ++ " " ++ b ++ " " ++ c)
+  | ["loadnd", id, _, a] => nd st id a
   | ["verify", h, d] => (st, if verifyHash Real.hashes (unhexFast d) h.toNat! then "ok" else "err")
   | ["sums", d] =>
     let b := unhexFast d
@@ -127,8 +127,8 @@ def step (st : St) (l : String) : St × String :=
     | none => (st, "noframe")
     | some f => ({ st with objs := st.objs.push (.tx f) }, "ok")
   | ["pushother"] => ({ st with objs := st.objs.push .other }, "ok")
-  | ["run"] => ({ st with objs := #[] }, runAccum st)
-  | ["txmeta", d, m] =>
+  | "run" :: _ => ({ st with objs := #[] }, runAccum st)
+  | "txmeta" :: d :: m :: _ =>
     match lookup st.frames d.toNat!, lookup st.frames m.toNat! with
     | some fd, some fm =>
       match load Real.hashes S.sort (lookup st.frames) (fuelOf st) fd with
